@@ -114,6 +114,52 @@ def cycSpec (P : Prims) (aliases : List (Str × Str)) (rule : Str) (obs : Compil
   | .otherError => true
   | .panicked => true
 
+/-! ### (b') the regular-expression source of a flat rule -/
+
+/-- an item of a *flat* rule, by meaning: verbatim text, an alias used without destination
+    (definition `d`), an alias used with a destination (definition, destination path, declared
+    filters). The definitions of a flat rule contain no placeholders themselves. -/
+inductive SItem where
+  | text (t : Str)
+  | ref (d : Str)
+  | cap (d : Str) (path : List Str) (filters : List Filter)
+  deriving DecidableEq, Repr
+
+/-- Spec of the source: the concatenation, in order, of the verbatim texts, the inlined
+    definitions, and one named group `(?<grokK>…)` per captured placeholder, `K` counting the
+    captures from `k`; and the fields `grokK ↦ (destination, filters)`. -/
+def specFrom : Nat → List SItem → Str × List (Nat × Field)
+  | _, [] => ([], [])
+  | k, .text t :: rest => (t ++ (specFrom k rest).1, (specFrom k rest).2)
+  | k, .ref d :: rest => (d ++ (specFrom k rest).1, (specFrom k rest).2)
+  | k, .cap d path fl :: rest =>
+    (cs!"(?<" ++ grokName k ++ cs!">" ++ d ++ cs!")" ++ (specFrom (k + 1) rest).1,
+     (k, ⟨path, fl⟩) :: (specFrom (k + 1) rest).2)
+
+/-- how a piece of the rule text is read as an item (the concrete placeholder syntax is the
+    lexer/parser of the model; the alias definition must be placeholder-free text). -/
+inductive Reads (P : Prims) (aliases : List (Str × Str)) : Piece → SItem → Prop where
+  | text (t : Str) : Reads P aliases (.text t) (.text t)
+  | ref {s : Str} {fn : Fn} {d : Str} :
+      parsePlaceholder P s = .ok ⟨fn, none⟩ → lookupAlias aliases fn.name = some d → seg d = [.text d] →
+      Reads P aliases (.ph s) (.ref d)
+  | cap {s : Str} {fn : Fn} {d : Str} {path : List Str} :
+      parsePlaceholder P s = .ok ⟨fn, some ⟨path, none⟩⟩ → lookupAlias aliases fn.name = some d →
+      seg d = [.text d] → Reads P aliases (.ph s) (.cap d path [])
+  | capF {s : Str} {fn f : Fn} {d : Str} {path : List Str} {flt : Filter} :
+      parsePlaceholder P s = .ok ⟨fn, some ⟨path, some f⟩⟩ → filterOf f = .ok flt →
+      lookupAlias aliases fn.name = some d → seg d = [.text d] →
+      Reads P aliases (.ph s) (.cap d path [flt])
+
+inductive ReadsAll (P : Prims) (aliases : List (Str × Str)) : List Piece → List SItem → Prop where
+  | nil : ReadsAll P aliases [] []
+  | cons {pc : Piece} {it : SItem} {ps : List Piece} {its : List SItem} :
+      Reads P aliases pc it → ReadsAll P aliases ps its → ReadsAll P aliases (pc :: ps) (it :: its)
+
+/-- the rule text `rule` is the flat rule `items`. -/
+def ReadsAs (P : Prims) (aliases : List (Str × Str)) (rule : Str) (items : List SItem) : Prop :=
+  ReadsAll P aliases (seg rule) items
+
 /-! ### (c) captured fields, in rule order -/
 
 /-- one capture of a rule: destination, declared filters, matched substring. -/
